@@ -70,6 +70,17 @@ def d1_no_cache(ctx, c, reader):
     for name in READ_ACCESSORS:
         f = c.methods.get(name)
         if f is None:
+            # provided by the collections.abc Mapping mixin on top of __getitem__/__iter__/__len__ (which are
+            # accessors themselves and are held to the re-read rule)
+            bases = {(dotted(b) or '').split('.')[-1] for b in c.node.bases}
+            prim = [c.methods.get(x) for x in ('__getitem__', '__iter__', '__len__')]
+            if bases & {'Mapping', 'MutableMapping'} and name in ('get', 'items', 'keys', 'values', '__contains__') and \
+                    all(g is not None and (g is reader or transitively_calls(g, ctx, lambda h: h is reader)) for g in prim):
+                n += 1
+                ctx.ok('R-OWN', 'D1', c.methods['__init__'], None, f'accessor::{name}',
+                       f'MetaData.{name} re-reads the file on every call (Mapping mixin over __getitem__/__iter__/__len__, '
+                       f'which reach the file reader)')
+                continue
             ctx.bad('R-OWN', 'D1', c.methods['__init__'], None, f'accessor::{name}', f'MetaData.{name} exists',
                     detail='read accessor vanished')
             continue
@@ -181,6 +192,12 @@ def d2_d3_d4_mutators(ctx, c, reader):
                 from ._trunc import folder as _folder
                 modes = {'self._accessmode': 'r+', 'self.accessmode': 'r+'}
                 r_empty = _ru(g, call, _folder(dict(modes, **{var: {}}), g))
+                # an item is stored into the dictionary on the way to the write: it is not empty there
+                stores = [st for st in own_nodes(g.node) if isinstance(st, ast.Assign) and len(st.targets) == 1 and
+                          isinstance(st.targets[0], ast.Subscript) and isinstance(st.targets[0].value, ast.Name) and
+                          st.targets[0].value.id == var]
+                if stores and must_precede(g, call, stores):
+                    r_empty = False
                 r_full = _ru(g, call, _folder(dict(modes, **{var: {'k': 1}}), g))
                 if r_empty is not False and r_full is not False and r_empty is not True:
                     # the write is reachable for an empty dictionary only through a test that could not be folded
@@ -433,6 +450,15 @@ def d6_encoder(ctx):
             'DDJSONEncoder' in (norm(n.body), norm(n.orelse)) for n in own_nodes(wj.node))
     ctx.decide(ok and dflt, 'R-FLOW', 'D6', wj, dumps[0] if dumps else None, 'encoder-used',
                'write_jsonfile serialises with DDJSONEncoder by default', detail='encoder is not passed to json.dumps')
+    # non-finite floats (NaN, +-inf) are in the property's value space and json.load reads them back: the writer must
+    # not switch them off (allow_nan=False raises ValueError for metadata the model dict accepts)
+    for d in dumps:
+        an = get_arg(d, None, 'allow_nan')
+        ctx.decide(an is None or (isinstance(an, ast.Constant) and an.value is True), 'R-TABLE', 'D6', wj, d, 'allow-nan',
+                   'write_jsonfile serialises non-finite floats (allow_nan left at its default True)',
+                   detail=f'json.dumps(allow_nan={norm(an) if an is not None else None}): NaN/inf values, which the reader '
+                          f'accepts and the dictionary model stores, are refused with ValueError — by item assignment, '
+                          f'update and at creation')
     # no stricter gate elsewhere: every other serialisation of user data either uses the writer's encoder or can only
     # warn (its handler swallows the failure) — a pre-check with the plain encoder that raises refuses NumPy scalars,
     # arrays and bytes, which the writer itself accepts
